@@ -97,35 +97,43 @@ Proof.
   - replace (48 + m - 48) with m by lia. unfold m. rewrite Z2Nat.id; lia.
 Qed.
 
+Lemma pdf_step f n acc :
+  pos_digits_fuel (S f) n acc =
+  if (n <? 10)%Z then dch n :: acc else pos_digits_fuel f (n / 10)%Z (dch n :: acc).
+Proof. reflexivity. Qed.
+
+Lemma single_digit n acc : (0 <= n < 10)%Z ->
+  exists ds, dch n :: acc = ds ++ acc /\ ds <> [] /\ forallb is_digit ds = true /\ value ds 0%Z = n.
+Proof.
+  intros B. exists [dch n]. destruct (dch_spec n) as [D V]. repeat split.
+  - discriminate.
+  - cbn [forallb]. now rewrite D.
+  - cbn [value]. rewrite V. rewrite Z.mod_small; lia.
+Qed.
+
 Lemma pos_digits_spec f : forall n acc, (0 <= n < 2 ^ Z.of_nat (S f))%Z ->
   exists ds, pos_digits_fuel (S f) n acc = ds ++ acc /\ ds <> [] /\
              forallb is_digit ds = true /\ value ds 0%Z = n.
 Proof.
   induction f as [|f IH]; intros n acc B.
   - change (2 ^ Z.of_nat 1)%Z with 2%Z in B.
-    simpl. destruct (n <? 10)%Z eqn:E; [|apply Z.ltb_ge in E; lia].
-    exists [dch n]. destruct (dch_spec n) as [D V]. repeat split.
-    + discriminate.
-    + simpl. now rewrite D.
-    + simpl. rewrite V. rewrite Z.mod_small; lia.
-  - remember (S f) as g. simpl. fold (dch n).
+    rewrite pdf_step. destruct (n <? 10)%Z eqn:E; [|apply Z.ltb_ge in E; lia].
+    apply single_digit. lia.
+  - rewrite pdf_step.
     destruct (n <? 10)%Z eqn:E.
-    + apply Z.ltb_lt in E. exists [dch n]. destruct (dch_spec n) as [D V]. repeat split.
-      * discriminate.
-      * simpl. now rewrite D.
-      * simpl. rewrite V. rewrite Z.mod_small; lia.
+    + apply Z.ltb_lt in E. apply single_digit. lia.
     + apply Z.ltb_ge in E.
-      assert (P : (2 ^ Z.of_nat (S g) = 2 * 2 ^ Z.of_nat g)%Z).
-      { rewrite Nat2Z.inj_succ. apply Z.pow_succ_r. lia. }
-      assert (Q : (0 < 2 ^ Z.of_nat g)%Z) by (apply Z.pow_pos_nonneg; lia).
-      assert (B' : (0 <= n / 10 < 2 ^ Z.of_nat g)%Z).
+      assert (P : (2 ^ Z.of_nat (S (S f)) = 2 * 2 ^ Z.of_nat (S f))%Z).
+      { rewrite (Nat2Z.inj_succ (S f)). apply Z.pow_succ_r. lia. }
+      assert (Q : (0 < 2 ^ Z.of_nat (S f))%Z) by (apply Z.pow_pos_nonneg; lia).
+      assert (B' : (0 <= n / 10 < 2 ^ Z.of_nat (S f))%Z).
       { split; [apply Z.div_pos; lia|]. apply Z.div_lt_upper_bound; lia. }
-      subst g. destruct (IH (n / 10)%Z (dch n :: acc) B') as (ds & E1 & N & D & V).
+      destruct (IH (n / 10)%Z (dch n :: acc) B') as (ds & E1 & N & D & V).
       exists (ds ++ [dch n]). destruct (dch_spec n) as [Dn Vn]. repeat split.
       * rewrite E1. now rewrite <- app_assoc.
       * destruct ds; discriminate.
-      * rewrite forallb_app, D. simpl. now rewrite Dn.
-      * rewrite value_app, V. simpl. rewrite Vn.
+      * rewrite forallb_app, D. cbn [forallb]. now rewrite Dn.
+      * rewrite value_app, V. cbn [value]. rewrite Vn.
         pose proof (Z.div_mod n 10). lia.
 Qed.
 
@@ -184,15 +192,946 @@ Proof.
     assert (Dc : is_digit c = true) by (simpl in D; now apply andb_true_iff in D as [? _]).
     destruct (digit_code c Dc) as [C1 C2]. rewrite C1, C2.
     rewrite <- (app_nil_r (c :: r)) at 1. rewrite digits_val_app by exact D.
-    simpl digits_val. now rewrite V.
+    rewrite V. reflexivity.
   - unfold str_of_Z. destruct (pos_digits_ok p) as (ds & E & N & D & V). rewrite E.
     unfold py_int. rewrite strip_c_id.
     2:{ simpl. apply (digits_no_space ds D). }
     change (code "-"%char =? 45) with true. cbv iota.
     rewrite <- (app_nil_r ds) at 1. rewrite digits_val_app by exact D.
-    destruct ds; [congruence|]. simpl digits_val. rewrite V. reflexivity.
+    rewrite V. destruct ds; [congruence|]. reflexivity.
 Qed.
 
 Example py_int_example : py_int (str_of_Z (-1000000007)%Z) = Some (-1000000007)%Z /\
                          str_of_Z 10000%Z = s "10000" /\ py_int (s " +1_000 ") = Some 1000%Z.
 Proof. repeat split; vm_compute; reflexivity. Qed.
+
+(* ------------------------------------------------------------------ strip *)
+Lemma lstrip_head c x : is_space c = false -> lstrip (c :: x) = c :: x.
+Proof. intros H. simpl. now rewrite H. Qed.
+
+Lemma lstrip_space c x : is_space c = true -> lstrip (c :: x) = lstrip x.
+Proof. intros H. simpl. now rewrite H. Qed.
+
+Lemma rev_last_head (x : str) d : x <> [] -> exists y, rev x = last x d :: y.
+Proof.
+  intros N. destruct (exists_last N) as (x' & a & ->).
+  rewrite rev_app_distr, last_last. simpl. eauto.
+Qed.
+
+Lemma rstrip_id x : (forall d, x <> [] -> is_space (last x d) = false) -> rstrip x = x.
+Proof.
+  intros H. unfold rstrip. destruct x as [|c x]; [reflexivity|].
+  destruct (rev_last_head (c :: x) c) as (y & E); [discriminate|].
+  rewrite E, lstrip_head by (apply H; discriminate). rewrite <- E. apply rev_involutive.
+Qed.
+
+Lemma last_indep (x : str) d d' : x <> [] -> last x d = last x d'.
+Proof.
+  induction x as [|a x IH]; intros N; [congruence|].
+  destruct x as [|b x]; [reflexivity|].
+  change (last (a :: b :: x) d) with (last (b :: x) d).
+  change (last (a :: b :: x) d') with (last (b :: x) d'). apply IH. discriminate.
+Qed.
+
+Lemma stripped_strip x : stripped x = true -> strip x = x.
+Proof.
+  unfold stripped, strip. destruct x as [|c x]; [reflexivity|].
+  intros H. apply andb_true_iff in H as [H1 H2]. apply negb_true_iff in H1, H2.
+  rewrite lstrip_head by exact H1. apply rstrip_id. intros d N.
+  now rewrite (last_indep (c :: x) d c N).
+Qed.
+
+Lemma strip_space_head c x : is_space c = true -> strip (c :: x) = strip x.
+Proof. intros H. unfold strip. now rewrite lstrip_space. Qed.
+
+Lemma rstrip_space_last c x : is_space c = true -> rstrip (x ++ [c]) = rstrip x.
+Proof.
+  intros H. unfold rstrip. rewrite rev_app_distr. change (rev [c] ++ rev x) with (c :: rev x).
+  now rewrite lstrip_space.
+Qed.
+
+Lemma strip_space_last c x : is_space c = true -> stripped x = true -> strip (x ++ [c]) = x.
+Proof.
+  intros H S. destruct x as [|a x].
+  - simpl app. unfold strip. rewrite lstrip_space by exact H. reflexivity.
+  - pose proof (stripped_strip _ S) as E. unfold strip in *.
+    unfold stripped in S. apply andb_true_iff in S as [S1 _]. apply negb_true_iff in S1.
+    simpl app. rewrite lstrip_head in * by exact S1.
+    change (a :: x ++ [c]) with ((a :: x) ++ [c]). now rewrite rstrip_space_last.
+Qed.
+
+Lemma lstrip_nonempty y c : is_space c = false -> lstrip (y ++ [c]) <> [].
+Proof.
+  intros H. induction y as [|a y IH]; simpl.
+  - rewrite H. discriminate.
+  - destruct (is_space a); [exact IH|discriminate].
+Qed.
+
+Lemma strip_nonempty c x : is_space c = false -> strip (c :: x) <> [].
+Proof.
+  intros H. unfold strip. rewrite lstrip_head by exact H. unfold rstrip.
+  simpl rev. intros E. apply (f_equal (@rev ascii)) in E. rewrite rev_involutive in E. simpl in E.
+  now apply (lstrip_nonempty (rev x) c H).
+Qed.
+
+(* ------------------------------------------------------------------ take_while *)
+Lemma take_while_all p k c r : forallb p k = true -> p c = false ->
+  take_while p (k ++ c :: r) = (k, c :: r).
+Proof.
+  intros H N. induction k as [|a k IH]; simpl.
+  - now rewrite N.
+  - simpl in H. apply andb_true_iff in H as [Ha Hk]. rewrite Ha, (IH Hk). reflexivity.
+Qed.
+
+Lemma take_while_none p c r : p c = false -> take_while p (c :: r) = ([], c :: r).
+Proof. intros N. simpl. now rewrite N. Qed.
+
+(* ------------------------------------------------------------------ metadata keys *)
+(* what the parsing lemmas need of an option name; checked for the whole schema below *)
+Definition name_ok (k : str) : bool :=
+  match k with
+  | c :: _ =>
+    forallb is_key_char k && negb (is_space c) && negb (is_blank c)
+    && negb (Ascii.eqb "-"%char c) && negb (Ascii.eqb "."%char c) && seqb (strip (lower k)) k
+  | [] => false
+  end.
+
+Lemma name_ok_inv k : name_ok k = true ->
+  exists c r, k = c :: r /\ forallb is_key_char k = true /\ is_space c = false /\ is_blank c = false
+              /\ Ascii.eqb "-"%char c = false /\ Ascii.eqb "."%char c = false /\ strip (lower k) = k.
+Proof.
+  unfold name_ok. destruct k as [|c r]; [discriminate|]. intros H.
+  apply andb_true_iff in H as [H H0]. apply andb_true_iff in H as [H H1].
+  apply andb_true_iff in H as [H H2]. apply andb_true_iff in H as [H H3].
+  apply andb_true_iff in H as [H H4].
+  apply negb_true_iff in H1, H2, H3, H4. apply seqb_eq in H0.
+  exists c, r. repeat split; assumption.
+Qed.
+
+Definition colon : ascii := ":"%char.
+
+Lemma match_meta_first k v : name_ok k = true -> stripped v = true ->
+  match_meta (k ++ colon :: " "%char :: v) = Some (k, v).
+Proof.
+  intros H S. destruct (name_ok_inv k H) as (c & r & -> & K & Sp & Bl & _ & _ & L).
+  unfold match_meta. change ((c :: r) ++ colon :: " "%char :: v) with (c :: (r ++ colon :: " "%char :: v)).
+  rewrite take_while_none by exact Bl.
+  change (3 <? length (@nil ascii)) with false. cbv iota.
+  change (c :: r ++ colon :: " "%char :: v) with ((c :: r) ++ colon :: " "%char :: v).
+  rewrite (take_while_all is_key_char (c :: r) colon (" "%char :: v) K) by reflexivity.
+  change (code colon =? 58) with true. cbv iota. rewrite L.
+  rewrite strip_space_head by reflexivity. now rewrite stripped_strip.
+Qed.
+
+Lemma match_meta_bare k : name_ok k = true -> match_meta (k ++ [colon]) = Some (k, []).
+Proof.
+  intros H. destruct (name_ok_inv k H) as (c & r & -> & K & Sp & Bl & _ & _ & L).
+  unfold match_meta. change ((c :: r) ++ [colon]) with (c :: (r ++ [colon])).
+  rewrite take_while_none by exact Bl.
+  change (3 <? length (@nil ascii)) with false. cbv iota.
+  change (c :: r ++ [colon]) with ((c :: r) ++ colon :: []).
+  rewrite (take_while_all is_key_char (c :: r) colon [] K) by reflexivity.
+  change (code colon =? 58) with true. cbv iota. now rewrite L.
+Qed.
+
+(* a line that starts with the first character of an option name is neither blank nor a fence *)
+Lemma key_line_continues c r : is_space c = false -> Ascii.eqb "-"%char c = false ->
+  Ascii.eqb "."%char c = false ->
+  (seqb (strip (c :: r)) [] || end_re (c :: r)) = false /\ begin_re (c :: r) = false.
+Proof.
+  intros Sp D1 D2. split.
+  - apply orb_false_iff. split.
+    + apply seqb_neq. now apply strip_nonempty.
+    + unfold end_re. change (s "---") with ("-"%char :: s "--"). change (s "...") with ("."%char :: s "..").
+      cbn [prefix]. now rewrite D1, D2.
+  - unfold begin_re. change (s "---") with ("-"%char :: s "--"). cbn [prefix]. now rewrite D1.
+Qed.
+
+Definition good_piece (x : str) : Prop := exists c r, x = c :: r /\ is_space c = false /\ stripped x = true.
+
+Lemma good_piece_of x : piece x && nonempty x = true -> good_piece x.
+Proof.
+  intros H. apply andb_true_iff in H as [P N]. unfold piece in P. apply andb_true_iff in P as [_ S].
+  destruct x as [|c r]; [discriminate|]. exists c, r. repeat split; auto.
+  unfold stripped in S. apply andb_true_iff in S as [S _]. now apply negb_true_iff.
+Qed.
+
+Lemma take_blank4 c r : is_blank c = false -> take_while is_blank (indent ++ c :: r) = (indent, c :: r).
+Proof. intros H. apply take_while_all; [reflexivity|exact H]. Qed.
+
+Lemma more_line x : good_piece x ->
+  let line := indent ++ x in
+  (seqb (strip line) [] || end_re line) = false /\ match_meta line = None /\ match_more line = Some x.
+Proof.
+  intros (c & r & -> & Sp & S). cbv zeta.
+  assert (Bl : is_blank c = false).
+  { unfold is_blank. unfold is_space in Sp. apply orb_false_iff in Sp as [_ Sp].
+    apply Nat.eqb_neq. intros E. rewrite E in Sp. discriminate. }
+  repeat split.
+  - apply orb_false_iff. split.
+    + apply seqb_neq. change (indent ++ c :: r) with (" "%char :: " "%char :: " "%char :: " "%char :: c :: r).
+      do 4 (rewrite strip_space_head by reflexivity). now apply strip_nonempty.
+    + reflexivity.
+  - unfold match_meta. rewrite (take_blank4 c r Bl). reflexivity.
+  - unfold match_more. rewrite (take_blank4 c r Bl). change (4 <=? length indent) with true. cbv iota.
+    now rewrite stripped_strip.
+Qed.
+
+(* meta_append *)
+Lemma meta_append_new k v m : aget k m = None -> meta_append k v m = m ++ [(k, [v])].
+Proof.
+  induction m as [|[k' vs] m IH]; simpl; intros H; [reflexivity|].
+  destruct (seqb k k'); [discriminate|]. now rewrite IH.
+Qed.
+
+Lemma meta_append_last k v vs m : aget k m = None ->
+  meta_append k v (m ++ [(k, vs)]) = m ++ [(k, vs ++ [v])].
+Proof.
+  induction m as [|[k' vs'] m IH]; simpl; intros H.
+  - now rewrite seqb_refl.
+  - destruct (seqb k k'); [discriminate|]. now rewrite IH.
+Qed.
+
+Lemma meta_go_more k vs : forall acc m rest, aget k m = None -> Forall good_piece vs ->
+  meta_go (map (fun x => indent ++ x) vs ++ rest) (Some k) (m ++ [(k, acc)])
+  = meta_go rest (Some k) (m ++ [(k, acc ++ vs)]).
+Proof.
+  induction vs as [|x vs IH]; intros acc m rest Hk Hg.
+  - simpl. now rewrite app_nil_r.
+  - inversion Hg as [|? ? Hx Hvs]; subst.
+    destruct (more_line x Hx) as (C & M1 & M2). cbv zeta in *.
+    change (map (fun x0 => indent ++ x0) (x :: vs) ++ rest)
+      with ((indent ++ x) :: (map (fun x0 => indent ++ x0) vs ++ rest)).
+    cbn [meta_go]. rewrite C, M1, M2. rewrite meta_append_last by exact Hk.
+    rewrite IH by assumption. now rewrite <- app_assoc.
+Qed.
+
+(* one metadata block "key: v" + continuation lines *)
+Lemma meta_go_block k v vs rest key0 m :
+  name_ok k = true -> stripped v = true -> Forall good_piece vs -> aget k m = None ->
+  meta_go (md_block k (v :: vs) ++ rest) key0 m = meta_go rest (Some k) (m ++ [(k, v :: vs)]).
+Proof.
+  intros H S G Hk. unfold md_block.
+  change (k ++ s ": " ++ v) with (k ++ colon :: " "%char :: v).
+  pose proof (match_meta_first k v H S) as M.
+  destruct (name_ok_inv k H) as (c & r & E & _ & Sp & _ & D1 & D2 & _).
+  rewrite <- app_comm_cons. cbn [meta_go].
+  assert (C : (seqb (strip (k ++ colon :: " "%char :: v)) [] || end_re (k ++ colon :: " "%char :: v)) = false).
+  { rewrite E. now apply key_line_continues. }
+  rewrite C, M. rewrite meta_append_new by exact Hk.
+  now rewrite (meta_go_more k vs [v] m rest Hk G).
+Qed.
+
+Lemma meta_go_bare k rest key0 m :
+  name_ok k = true -> aget k m = None ->
+  meta_go (md_block k [] ++ rest) key0 m = meta_go rest (Some k) (m ++ [(k, [[]])]).
+Proof.
+  intros H Hk. unfold md_block. change (k ++ s ":") with (k ++ [colon]).
+  pose proof (match_meta_bare k H) as M.
+  destruct (name_ok_inv k H) as (c & r & E & _ & Sp & _ & D1 & D2 & _).
+  cbn [app meta_go].
+  assert (C : (seqb (strip (k ++ [colon])) [] || end_re (k ++ [colon])) = false).
+  { rewrite E. now apply key_line_continues. }
+  rewrite C, M. now rewrite meta_append_new by exact Hk.
+Qed.
+
+(* ------------------------------------------------------------------ association lists *)
+Lemma aset_new {V} k (v : V) m : aget k m = None -> aset k v m = m ++ [(k, v)].
+Proof.
+  induction m as [|[k' v'] m IH]; simpl; intros H; [reflexivity|].
+  destruct (seqb k k'); [discriminate|]. now rewrite IH.
+Qed.
+
+Lemma aget_app_none {V} k k' (v : V) m : aget k m = None -> k <> k' -> aget k (m ++ [(k', v)]) = None.
+Proof.
+  intros H N. induction m as [|[k2 v2] m IH]; simpl in *.
+  - apply seqb_neq in N. now rewrite N.
+  - destruct (seqb k k2); [discriminate|]. now apply IH.
+Qed.
+
+Lemma sin_true_neq k k' l : sin k l = false -> sin k' l = true -> k' <> k.
+Proof. intros H1 H2 E. subst. congruence. Qed.
+
+Lemma fold_aset_nodup {V} (l : list (str * V)) : forall acc,
+  nodup_strs (map fst l) = true ->
+  (forall k, sin k (map fst l) = true -> aget k acc = None) ->
+  fold_left (fun d kv => aset (fst kv) (snd kv) d) l acc = acc ++ l.
+Proof.
+  induction l as [|[k v] l IH]; intros acc N H; simpl.
+  - now rewrite app_nil_r.
+  - simpl in N. apply andb_true_iff in N as [N1 N2]. apply negb_true_iff in N1.
+    rewrite aset_new.
+    2:{ apply H. simpl. now rewrite seqb_refl. }
+    rewrite IH; [now rewrite <- app_assoc|exact N2|].
+    intros k2 Hk2. apply aget_app_none.
+    + apply H. simpl. rewrite Hk2. now destruct (seqb k2 k).
+    + now apply (sin_true_neq k k2 (map fst l)).
+Qed.
+
+Lemma dict_of_pairs_nodup l : nodup_strs (map fst l) = true -> dict_of_pairs l = PDict l.
+Proof.
+  intros N. unfold dict_of_pairs. rewrite fold_aset_nodup; [reflexivity|exact N|reflexivity].
+Qed.
+
+(* ------------------------------------------------------------------ conversion of the markdown form *)
+Lemma all_strs_map l : all_strs (map PStr l) = Some l.
+Proof. induction l as [|x l IH]; simpl; [reflexivity|]. now rewrite IH. Qed.
+
+Lemma mapM_ok {A B} (f : A -> res B) (g : A -> B) l :
+  (forall x, In x l -> f x = Ok (g x)) -> mapM f l = Ok (map g l).
+Proof.
+  induction l as [|x l IH]; intros H; simpl; [reflexivity|].
+  rewrite (H x (or_introl eq_refl)). simpl. rewrite IH; [reflexivity|].
+  intros y Hy. apply H. now right.
+Qed.
+
+Lemma mapM_map_ok {A B C} (f : B -> res C) (h : A -> B) (g : A -> C) l :
+  (forall x, In x l -> f (h x) = Ok (g x)) -> mapM f (map h l) = Ok (map g l).
+Proof.
+  induction l as [|x l IH]; intros H; simpl; [reflexivity|].
+  rewrite (H x (or_introl eq_refl)). simpl. rewrite IH; [reflexivity|].
+  intros y Hy. apply H. now right.
+Qed.
+
+Lemma split_once_app sep a b : existsb (Ascii.eqb sep) a = false ->
+  split_once sep (a ++ sep :: b) = Some (a, b).
+Proof.
+  induction a as [|c a IH]; simpl; intros H.
+  - now rewrite Ascii.eqb_refl.
+  - apply orb_false_iff in H as [H1 H2]. rewrite Ascii.eqb_sym in H1. rewrite H1.
+    now rewrite (IH H2).
+Qed.
+
+Lemma split_ws_go_token t : forall r cur, existsb is_space t = false ->
+  split_ws_go (t ++ r) cur = split_ws_go r (rev t ++ cur).
+Proof.
+  induction t as [|c t IH]; intros r cur H; simpl; [reflexivity|].
+  simpl in H. apply orb_false_iff in H as [H1 H2]. rewrite H1.
+  rewrite (IH r (c :: cur) H2). now rewrite <- app_assoc.
+Qed.
+
+Definition sp : ascii := " "%char.
+
+Lemma token_inv x : token x = true -> x <> [] /\ existsb is_space x = false.
+Proof.
+  unfold token. intros H. apply andb_true_iff in H as [H1 H2]. apply negb_true_iff in H2.
+  split; [destruct x; [discriminate|discriminate]|exact H2].
+Qed.
+
+Lemma split_ws_tail c : token c = true -> split_ws_go c [] = [c].
+Proof.
+  intros H. destruct (token_inv c H) as [N E].
+  rewrite <- (app_nil_r c) at 1. rewrite split_ws_go_token by exact E.
+  rewrite app_nil_r. simpl. destruct (rev c) eqn:R.
+  - apply (f_equal (@rev ascii)) in R. rewrite rev_involutive in R. simpl in R. congruence.
+  - rewrite <- R. now rewrite rev_involutive.
+Qed.
+
+Lemma split_ws_head e r : token e = true ->
+  split_ws_go (e ++ sp :: r) [] = e :: split_ws_go r [].
+Proof.
+  intros H. destruct (token_inv e H) as [N E].
+  rewrite split_ws_go_token by exact E. rewrite app_nil_r.
+  cbn [split_ws_go]. change (is_space sp) with true. cbv iota.
+  destruct (rev e) eqn:R.
+  - apply (f_equal (@rev ascii)) in R. rewrite rev_involutive in R. simpl in R. congruence.
+  - rewrite <- R. now rewrite rev_involutive.
+Qed.
+
+Lemma split_ws_two e c : token e = true -> token c = true -> split_ws (e ++ s " " ++ c) = [e; c].
+Proof.
+  intros He Hc. unfold split_ws. change (e ++ s " " ++ c) with (e ++ sp :: c).
+  rewrite split_ws_head by exact He. now rewrite split_ws_tail.
+Qed.
+
+Lemma split_ws_three e c l : token e = true -> token c = true -> token l = true ->
+  split_ws (e ++ s " " ++ c ++ s " " ++ l) = [e; c; l].
+Proof.
+  intros He Hc Hl. unfold split_ws. change (e ++ s " " ++ c ++ s " " ++ l) with (e ++ sp :: (c ++ sp :: l)).
+  rewrite split_ws_head by exact He. rewrite split_ws_head by exact Hc. now rewrite split_ws_tail.
+Qed.
+
+(* the list of metadata strings that meta_preprocessor extracts for a value *)
+Definition md_raw (key : str) (v : aval) : list str :=
+  match md_values key v with [] => [[]] | l => l end.
+
+Definition ft_entry (t : str * str * option str) : str * pv :=
+  match t with (e, c, l) => (e, PFT e c l) end.
+
+(* what the conversion of the markdown form yields *)
+Definition md_conv (v : aval) : pv :=
+  match v with
+  | VOne x => PList [PStr x]
+  | VFT l => PDict (map ft_entry l)
+  | _ => enc_toml v
+  end.
+
+Lemma pieces_nonempty l : pieces l = true -> l <> [].
+Proof. destruct l; [discriminate|discriminate]. Qed.
+
+Lemma md_raw_list key v l : md_values key v = l -> l <> [] -> md_raw key v = l.
+Proof. unfold md_raw. intros -> N. destruct l; [congruence|reflexivity]. Qed.
+
+Lemma piece_stripped x : piece x = true -> stripped x = true.
+Proof. unfold piece. intros H. now apply andb_true_iff in H as [_ H]. Qed.
+
+Lemma convert_dict_entries key sep (d : list (str * str)) :
+  aget key option_separators = Some [sep] -> is_space sep = false ->
+  forallb (fun kv => piece (fst kv) && piece (snd kv) && negb (existsb (Ascii.eqb sep) (fst kv))) d = true ->
+  nodup_strs (map fst d) = true ->
+  convert_to_dict TDictStr key (PList (map PStr (map (fun kv => fst kv ++ [sep] ++ snd kv) d)))
+  = Ok (PDict (map (fun kv => (fst kv, PStr (snd kv))) d)).
+Proof.
+  intros Hs Hsp Hd Hn. unfold convert_to_dict. cbn [bind]. rewrite Hs.
+  set (lines := map (fun kv => fst kv ++ [sep] ++ snd kv) d).
+  assert (F : filter py_truthy (map PStr lines) = map PStr lines).
+  { unfold lines. clear. induction d as [|[k v] d IH]; [reflexivity|].
+    cbn [map filter fst snd]. destruct (k ++ [sep] ++ v) eqn:E.
+    - destruct k; discriminate.
+    - cbn [py_truthy]. now rewrite IH. }
+  rewrite F. unfold lines. rewrite !map_map.
+  rewrite (mapM_map_ok _ _ (fun kv => (fst kv, PStr (snd kv)))).
+  - cbn [bind]. rewrite dict_of_pairs_nodup; [reflexivity|]. now rewrite map_map.
+  - intros [k v] Hin. rewrite forallb_forall in Hd. specialize (Hd _ Hin). cbn [fst snd] in *.
+    apply andb_true_iff in Hd as [Hd H3]. apply andb_true_iff in Hd as [H1 H2].
+    apply negb_true_iff in H3. unfold parse_entry.
+    change (k ++ [sep] ++ v) with (k ++ sep :: v).
+    rewrite split_once_app by exact H3.
+    rewrite !stripped_strip by now apply piece_stripped.
+    reflexivity.
+Qed.
+
+Lemma ft_line_ok key t :
+  (match t with
+   | (e, c, None) => token e && token c
+   | (e, c, Some x) => token e && token c && token x
+   end) = true ->
+  file_type_from_string key (PStr (ft_line t)) = Ok (ft_entry t).
+Proof.
+  destruct t as [[e c] [l|]]; intros H; unfold file_type_from_string, ft_line.
+  - apply andb_true_iff in H as [H Hl]. apply andb_true_iff in H as [He Hc].
+    now rewrite split_ws_three.
+  - apply andb_true_iff in H as [He Hc]. now rewrite split_ws_two.
+Qed.
+
+Lemma convert_ft_entries key (l : list (str * str * option str)) :
+  forallb (fun t => match t with
+                    | (e, c, None) => token e && token c
+                    | (e, c, Some x) => token e && token c && token x
+                    end) l = true ->
+  nodup_strs (map (fun t => fst (fst t)) l) = true ->
+  convert_to_dict TDictFT key (PList (map PStr (map ft_line l))) = Ok (PDict (map ft_entry l)).
+Proof.
+  intros Hl Hn. unfold convert_to_dict. cbn [bind].
+  assert (F : filter py_truthy (map PStr (map ft_line l)) = map PStr (map ft_line l)).
+  { clear Hn. induction l as [|t l IH]; [reflexivity|].
+    cbn [forallb] in Hl. apply andb_true_iff in Hl as [Ht Hl].
+    cbn [map filter]. destruct (ft_line t) eqn:E.
+    - destruct t as [[e c] [x|]]; unfold ft_line in E.
+      + apply andb_true_iff in Ht as [Ht _]. apply andb_true_iff in Ht as [He _].
+        destruct (token_inv e He) as [N _]. destruct e; [congruence|discriminate].
+      + apply andb_true_iff in Ht as [He _].
+        destruct (token_inv e He) as [N _]. destruct e; [congruence|discriminate].
+    - cbn [py_truthy]. now rewrite (IH Hl). }
+  rewrite F, !map_map.
+  rewrite (mapM_map_ok _ _ ft_entry).
+  - cbn [bind]. rewrite dict_of_pairs_nodup; [reflexivity|].
+    rewrite map_map. erewrite map_ext; [exact Hn|]. now intros [[e c] x].
+  - intros t Hin. rewrite forallb_forall in Hl. apply ft_line_ok. now apply Hl.
+Qed.
+
+Lemma convert_empty_dict t key : (t = TDictStr \/ t = TDictFT) ->
+  (t = TDictStr -> exists sep, aget key option_separators = Some [sep]) ->
+  convert_to_dict t key (PList [PStr []]) = Ok (PDict []).
+Proof.
+  intros [-> | ->] H; unfold convert_to_dict; cbn [bind filter py_truthy].
+  - destruct (H eq_refl) as (sep & ->). reflexivity.
+  - reflexivity.
+Qed.
+
+Theorem convert_md_value key t v :
+  wt_value key t v = true ->
+  convert_setting t key (PList (map PStr (md_raw key v))) = Ok (md_conv v).
+Proof.
+  intros W. destruct v as [b|z|ls|l|x|d|l].
+  - (* bool *) destruct t; try discriminate W. destruct b; reflexivity.
+  - (* int *)
+    destruct t; try discriminate W;
+      (unfold md_raw, md_values, convert_setting; cbn [same_type map];
+       unfold convert_to_int; now rewrite py_int_str_of_Z).
+  - (* str *)
+    assert (P : pieces ls = true).
+    { destruct t; try discriminate W; now apply andb_true_iff in W as [W _]. }
+    rewrite (md_raw_list key (VStr ls) ls eq_refl (pieces_nonempty _ P)).
+    destruct t; try discriminate W;
+      (unfold convert_setting; cbn [same_type]; now rewrite all_strs_map).
+  - (* list *)
+    assert (P : pieces l = true) by (destruct t; try discriminate W; exact W).
+    rewrite (md_raw_list key (VList l) l eq_refl (pieces_nonempty _ P)).
+    destruct t; try discriminate W; reflexivity.
+  - (* one *) destruct t; try discriminate W; reflexivity.
+  - (* dict *)
+    destruct t; try discriminate W. cbn [wt_value] in W.
+    destruct (aget key option_separators) as [[|sep [|? ?]]|] eqn:Hs; try discriminate W.
+    apply andb_true_iff in W as [W Hn]. apply andb_true_iff in W as [Hsp Hd].
+    apply negb_true_iff in Hsp.
+    unfold convert_setting. cbn [same_type]. cbv iota.
+    assert (Sep : sep_of key = [sep]) by (unfold sep_of; now rewrite Hs).
+    destruct d as [|kv d].
+    + change (md_raw key (VDict [])) with [@nil ascii]. cbn [map]. apply convert_empty_dict; eauto.
+    + rewrite (md_raw_list key (VDict (kv :: d)) _ eq_refl) by discriminate.
+      cbn [md_values]. rewrite Sep.
+      now apply (convert_dict_entries key sep (kv :: d)).
+  - (* file types *)
+    destruct t; try discriminate W. cbn [wt_value] in W.
+    apply andb_true_iff in W as [Hl Hn].
+    unfold convert_setting. cbn [same_type]. cbv iota.
+    destruct l as [|t l].
+    + change (md_raw key (VFT [])) with [@nil ascii]. cbn [map]. apply convert_empty_dict; auto.
+      intros E; discriminate E.
+    + rewrite (md_raw_list key (VFT (t :: l)) _ eq_refl) by discriminate.
+      now apply convert_ft_entries.
+Qed.
+
+(* ------------------------------------------------------------------ shape of the markdown values *)
+Lemma last_in (x : str) d : x <> [] -> In (last x d) x.
+Proof.
+  intros N. destruct (exists_last N) as (y & a & ->). rewrite last_last. apply in_or_app. right. now left.
+Qed.
+
+Lemma nospace_stripped x : forallb (fun c => negb (is_space c)) x = true -> stripped x = true.
+Proof.
+  intros H. destruct x as [|c r]; [reflexivity|]. unfold stripped.
+  rewrite forallb_forall in H. apply andb_true_iff. split.
+  - apply H. now left.
+  - apply H. apply last_in. discriminate.
+Qed.
+
+Lemma stripped_ends (a b : str) c r d :
+  a = c :: r -> is_space c = false -> b <> [] -> is_space (last b d) = false -> stripped (a ++ b) = true.
+Proof.
+  intros -> Hc Nb Hl. unfold stripped. cbn [app]. apply andb_true_iff. split; [now rewrite Hc|].
+  apply negb_true_iff. change (c :: r ++ b) with ((c :: r) ++ b).
+  destruct (exists_last Nb) as (b' & z & ->). rewrite last_last in Hl.
+  rewrite app_assoc, last_last. exact Hl.
+Qed.
+
+Lemma last_app (a b : str) d : b <> [] -> last (a ++ b) d = last b d.
+Proof.
+  intros N. destruct (exists_last N) as (b' & z & ->). now rewrite app_assoc, !last_last.
+Qed.
+
+Lemma str_of_Z_nospace z : forallb (fun c => negb (is_space c)) (str_of_Z z) = true.
+Proof.
+  assert (D : forall ds, forallb is_digit ds = true -> forallb (fun c => negb (is_space c)) ds = true).
+  { intros ds H. apply forallb_forall. intros c Hc. rewrite forallb_forall in H.
+    apply negb_true_iff. now apply digit_not_space, H. }
+  destruct z as [|p|p]; [reflexivity| |]; unfold str_of_Z;
+    destruct (pos_digits_ok p) as (ds & E & _ & Dg & _); rewrite E.
+  - now apply D.
+  - cbn [forallb]. now rewrite (D ds Dg).
+Qed.
+
+Lemma str_of_Z_nonempty z : str_of_Z z <> [].
+Proof.
+  destruct z as [|p|p]; [discriminate| |discriminate].
+  unfold str_of_Z. destruct (pos_digits_ok p) as (ds & E & N & _). now rewrite E.
+Qed.
+
+Definition good_values (vals : list str) : Prop :=
+  match vals with
+  | [] => True
+  | v :: vs => stripped v = true /\ Forall good_piece vs
+  end.
+
+Lemma pieces_good l : pieces l = true -> good_values l.
+Proof.
+  destruct l as [|x l]; [discriminate|]. unfold pieces. intros H. apply andb_true_iff in H as [H1 H2].
+  split; [now apply piece_stripped|].
+  apply Forall_forall. intros y Hy. rewrite forallb_forall in H2. now apply good_piece_of, H2.
+Qed.
+
+Lemma good_piece_intro x c r : x = c :: r -> is_space c = false -> stripped x = true -> good_piece x.
+Proof. intros. exists c, r. auto. Qed.
+
+Lemma token_first e : token e = true -> exists c r, e = c :: r /\ is_space c = false.
+Proof.
+  intros H. destruct (token_inv e H) as [N E]. destruct e as [|c r]; [congruence|].
+  exists c, r. split; [reflexivity|]. simpl in E. now apply orb_false_iff in E as [E _].
+Qed.
+
+Lemma token_last e d : token e = true -> is_space (last e d) = false.
+Proof.
+  intros H. destruct (token_inv e H) as [N E].
+  pose proof (last_in e d N) as I.
+  destruct (is_space (last e d)) eqn:S; [|reflexivity].
+  exfalso. assert (existsb is_space e = true) by (apply existsb_exists; eauto). congruence.
+Qed.
+
+Lemma ft_line_good t :
+  (match t with
+   | (e, c, None) => token e && token c
+   | (e, c, Some x) => token e && token c && token x
+   end) = true -> good_piece (ft_line t) /\ stripped (ft_line t) = true.
+Proof.
+  destruct t as [[e c] [l|]]; intros H; unfold ft_line.
+  - apply andb_true_iff in H as [H Hl]. apply andb_true_iff in H as [He Hc].
+    destruct (token_first e He) as (a & r & E & Sa).
+    assert (S : stripped (e ++ s " " ++ c ++ s " " ++ l) = true).
+    { apply (stripped_ends e _ a r a E Sa).
+      - discriminate.
+      - destruct (token_inv l Hl) as [Nl _].
+        rewrite last_app by (destruct c; discriminate). rewrite last_app by discriminate.
+        rewrite last_app by exact Nl. now apply token_last. }
+    split; [|exact S]. subst e. now apply (good_piece_intro _ a (r ++ s " " ++ c ++ s " " ++ l)).
+  - apply andb_true_iff in H as [He Hc].
+    destruct (token_first e He) as (a & r & E & Sa).
+    assert (S : stripped (e ++ s " " ++ c) = true).
+    { apply (stripped_ends e _ a r a E Sa).
+      - discriminate.
+      - destruct (token_inv c Hc) as [Nc _].
+        rewrite last_app by exact Nc. now apply token_last. }
+    split; [|exact S]. subst e. now apply (good_piece_intro _ a (r ++ s " " ++ c)).
+Qed.
+
+Lemma dict_line_good sep k v : is_space sep = false -> piece k = true -> piece v = true ->
+  good_piece (k ++ [sep] ++ v) /\ stripped (k ++ [sep] ++ v) = true.
+Proof.
+  intros Hs Hk Hv. apply piece_stripped in Hk, Hv.
+  assert (S : stripped (k ++ [sep] ++ v) = true).
+  { destruct k as [|a r].
+    - cbn [app]. destruct v as [|b w].
+      + unfold stripped. cbn [last]. now rewrite Hs.
+      + apply (stripped_ends [sep] (b :: w) sep [] sep eq_refl Hs); [discriminate|].
+        unfold stripped in Hv. apply andb_true_iff in Hv as [_ Hv]. apply negb_true_iff in Hv.
+        now rewrite (last_indep (b :: w) sep b) by discriminate.
+    - unfold stripped in Hk. apply andb_true_iff in Hk as [Ha _]. apply negb_true_iff in Ha.
+      apply (stripped_ends (a :: r) ([sep] ++ v) a r a eq_refl Ha); [discriminate|].
+      destruct v as [|b w].
+      + exact Hs.
+      + change ([sep] ++ b :: w) with (sep :: b :: w). change (last (sep :: b :: w) a) with (last (b :: w) a).
+        unfold stripped in Hv. apply andb_true_iff in Hv as [_ Hv]. apply negb_true_iff in Hv.
+        now rewrite (last_indep (b :: w) a b) by discriminate. }
+  split; [|exact S].
+  destruct k as [|a r].
+  - apply (good_piece_intro _ sep v); auto.
+  - unfold stripped in Hk. apply andb_true_iff in Hk as [Ha _]. apply negb_true_iff in Ha.
+    apply (good_piece_intro _ a (r ++ [sep] ++ v)); auto.
+Qed.
+
+Lemma good_values_of_lines (lines : list str) :
+  (forall x, In x lines -> good_piece x /\ stripped x = true) -> good_values lines.
+Proof.
+  destruct lines as [|x l]; [exact (fun _ => I)|]. intros H. split.
+  - apply H. now left.
+  - apply Forall_forall. intros y Hy. apply H. now right.
+Qed.
+
+Lemma md_values_good key t v : wt_value key t v = true -> good_values (md_values key v).
+Proof.
+  intros W. destruct v as [b|z|ls|l|x|d|l]; cbn [md_values].
+  - split; [destruct b; reflexivity|constructor].
+  - split; [apply nospace_stripped, str_of_Z_nospace|constructor].
+  - apply pieces_good. destruct t; try discriminate W; now apply andb_true_iff in W as [W _].
+  - apply pieces_good. destruct t; try discriminate W; exact W.
+  - split; [|constructor]. apply piece_stripped. destruct t; try discriminate W; exact W.
+  - destruct t; try discriminate W. cbn [wt_value] in W.
+    destruct (aget key option_separators) as [[|sep [|? ?]]|] eqn:Hs; try discriminate W.
+    apply andb_true_iff in W as [W Hn]. apply andb_true_iff in W as [Hsp Hd].
+    apply negb_true_iff in Hsp.
+    assert (Sep : sep_of key = [sep]) by (unfold sep_of; now rewrite Hs). rewrite Sep.
+    apply good_values_of_lines. intros x Hx. apply in_map_iff in Hx as ([k v] & <- & Hin).
+    rewrite forallb_forall in Hd. specialize (Hd _ Hin). cbn [fst snd] in *.
+    apply andb_true_iff in Hd as [Hd _]. apply andb_true_iff in Hd as [H1 H2].
+    now apply dict_line_good.
+  - destruct t; try discriminate W. cbn [wt_value] in W. apply andb_true_iff in W as [Hl _].
+    apply good_values_of_lines. intros x Hx. apply in_map_iff in Hx as (t & <- & Hin).
+    rewrite forallb_forall in Hl. now apply ft_line_good, Hl.
+Qed.
+
+(* ------------------------------------------------------------------ meta_preprocessor on the encoding *)
+Lemma meta_go_enc key t v rest key0 m :
+  name_ok key = true -> wt_value key t v = true -> aget key m = None ->
+  meta_go (enc_md key v ++ rest) key0 m = meta_go rest (Some key) (m ++ [(key, md_raw key v)]).
+Proof.
+  intros Hn W Hk. pose proof (md_values_good key t v W) as G.
+  unfold enc_md, md_raw. destruct (md_values key v) as [|x vs].
+  - now apply meta_go_bare.
+  - destruct G as [S F]. now apply meta_go_block.
+Qed.
+
+Definition raw_all (kvs : list (str * aval)) : list (str * list str) :=
+  map (fun kv => (fst kv, md_raw (fst kv) (snd kv))) kvs.
+
+Definition wt_typed (kv : str * aval) : Prop :=
+  exists t, field_ty (fst kv) = Some t /\ wt_value (fst kv) t (snd kv) = true /\ name_ok (fst kv) = true.
+
+Lemma aget_app_none_list {V} k (m : list (str * V)) k' v :
+  aget k m = None -> seqb k k' = false -> aget k (m ++ [(k', v)]) = None.
+Proof. intros H N. apply aget_app_none; [exact H|]. now apply seqb_neq. Qed.
+
+Lemma meta_go_all kvs : forall key0 m,
+  Forall wt_typed kvs -> nodup_strs (map fst kvs) = true ->
+  (forall k, sin k (map fst kvs) = true -> aget k m = None) ->
+  meta_go (enc_md_all kvs) key0 m = m ++ raw_all kvs.
+Proof.
+  induction kvs as [|[k v] kvs IH]; intros key0 m W N H.
+  - simpl. now rewrite app_nil_r.
+  - inversion W as [|? ? (t & Ht & Wv & Hn) Wr]; subst. cbn [fst snd] in *.
+    simpl in N. apply andb_true_iff in N as [N1 N2]. apply negb_true_iff in N1.
+    change (enc_md_all ((k, v) :: kvs)) with (enc_md k v ++ enc_md_all kvs).
+    rewrite (meta_go_enc k t v) by (auto; apply H; simpl; now rewrite seqb_refl).
+    rewrite IH; [|exact Wr|exact N2|].
+    + unfold raw_all. cbn [map fst snd]. now rewrite <- app_assoc.
+    + intros k2 Hk2. apply aget_app_none.
+      * apply H. simpl. rewrite Hk2. now destruct (seqb k2 k).
+      * now apply (sin_true_neq k k2 (map fst kvs)).
+Qed.
+
+Lemma enc_md_first_line key t v : name_ok key = true -> wt_value key t v = true ->
+  exists l0 rest, enc_md key v = l0 :: rest /\ begin_re l0 = false.
+Proof.
+  intros Hn W. destruct (name_ok_inv key Hn) as (c & r & E & _ & Sp & _ & D1 & D2 & _).
+  unfold enc_md, md_block. destruct (md_values key v) as [|x vs]; eexists; eexists; (split; [reflexivity|]);
+    rewrite E; now apply (key_line_continues c).
+Qed.
+
+Theorem meta_enc_md_all kvs :
+  Forall wt_typed kvs -> nodup_strs (map fst kvs) = true ->
+  meta_preprocessor (enc_md_all kvs) = raw_all kvs.
+Proof.
+  intros W N. destruct kvs as [|[k v] kvs]; [reflexivity|].
+  inversion W as [|? ? (t & Ht & Wv & Hn) Wr]; subst. cbn [fst snd] in *.
+  destruct (enc_md_first_line k t v Hn Wv) as (l0 & rest & E & B).
+  assert (M : forall lines, meta_preprocessor ((l0 :: rest) ++ lines) = meta_go ((l0 :: rest) ++ lines) None []).
+  { intros lines. unfold meta_preprocessor. cbn [app]. now rewrite B. }
+  change (enc_md_all ((k, v) :: kvs)) with (enc_md k v ++ enc_md_all kvs).
+  rewrite E, M, <- E.
+  change (enc_md k v ++ enc_md_all kvs) with (enc_md_all ((k, v) :: kvs)).
+  rewrite (meta_go_all ((k, v) :: kvs) None []); auto.
+Qed.
+
+(* ------------------------------------------------------------------ convert_meta on the extracted values *)
+Definition conv_all (kvs : list (str * aval)) : list (str * pv) :=
+  map (fun kv => (fst kv, md_conv (snd kv))) kvs.
+
+Lemma convert_meta_all kvs : Forall wt_typed kvs -> convert_meta (raw_all kvs) = Ok (conv_all kvs, []).
+Proof.
+  induction kvs as [|[k v] kvs IH]; intros W; [reflexivity|].
+  inversion W as [|? ? (t & Ht & Wv & Hn) Wr]; subst. cbn [fst snd] in *.
+  unfold raw_all. cbn [map convert_meta fst snd]. rewrite Ht.
+  rewrite (convert_md_value k t v Wv). cbn [bind]. fold (raw_all kvs). rewrite (IH Wr). reflexivity.
+Qed.
+
+Definition simple_value (v : aval) : bool :=
+  match v with VOne _ | VFT _ => false | _ => true end.
+
+Lemma conv_all_simple kvs : forallb (fun kv => simple_value (snd kv)) kvs = true -> conv_all kvs = enc_toml_all kvs.
+Proof.
+  induction kvs as [|[k v] kvs IH]; intros H; [reflexivity|].
+  cbn [forallb snd] in H. apply andb_true_iff in H as [H1 H2].
+  unfold conv_all, enc_toml_all. cbn [map fst snd]. fold (conv_all kvs) (enc_toml_all kvs).
+  rewrite (IH H2). destruct v; try discriminate H1; reflexivity.
+Qed.
+
+Lemma include_like_conv k t v : wt_value k t v = true -> include_like (k, md_conv v) = false.
+Proof.
+  intros W. destruct v; try reflexivity. unfold include_like. cbn [snd md_conv enc_toml].
+  destruct t; try discriminate W; apply andb_true_iff in W as [_ W]; now apply negb_true_iff.
+Qed.
+
+Lemma include_like_all kvs : Forall wt_typed kvs -> existsb include_like (conv_all kvs) = false.
+Proof.
+  induction kvs as [|[k v] kvs IH]; intros W; [reflexivity|].
+  inversion W as [|? ? (t & Ht & Wv & Hn) Wr]; subst. cbn [fst snd] in *.
+  unfold conv_all. cbn [map existsb fst snd]. fold (conv_all kvs).
+  rewrite (include_like_conv k t v Wv). now apply IH.
+Qed.
+
+Theorem run_markdown_enc kvs :
+  Forall wt_typed kvs -> nodup_strs (map fst kvs) = true ->
+  run_markdown (enc_md_all kvs) = do st <- construct (conv_all kvs); Ok (st, []).
+Proof.
+  intros W N. unfold run_markdown. rewrite (meta_enc_md_all kvs W N), (convert_meta_all kvs W).
+  cbn [bind fst snd]. now rewrite (include_like_all kvs W).
+Qed.
+
+(* ------------------------------------------------------------------ facts about the generated schema *)
+Definition schema_names : list str := map f_name project_schema.
+
+Definition schema_ok : bool :=
+  forallb (fun f => name_ok (f_name f)) project_schema
+  && nodup_strs schema_names
+  && forallb (fun f => match field_ty (f_name f) with
+                       | Some t => match t, f_ty f with
+                                   | TBool, TBool | TInt, TInt | TStr, TStr | TPath, TPath | TListAny, TListAny
+                                   | TOptStr, TOptStr | TOptPath, TOptPath | TOptInt, TOptInt
+                                   | TListStr, TListStr | TListPath, TListPath
+                                   | TDictStr, TDictStr | TDictFT, TDictFT => true
+                                   | _, _ => false
+                                   end
+                       | None => false
+                       end) project_schema
+  && forallb (fun f => match f_ty f with
+                       | TDictStr => match aget (f_name f) option_separators with
+                                     | Some [sep] => negb (is_space sep)
+                                     | _ => false
+                                     end
+                       | _ => true
+                       end) project_schema
+  && forallb (fun k => sin k schema_names) config_sensitive
+  && match construct [] with Ok _ => true | _ => false end.
+
+Lemma schema_ok_true : schema_ok = true.
+Proof. vm_compute. reflexivity. Qed.
+
+Lemma find_field_name sch k f : find_field sch k = Some f -> f_name f = k /\ In f sch.
+Proof.
+  induction sch as [|g sch IH]; simpl; [discriminate|].
+  destruct (seqb k (f_name g)) eqn:E.
+  - intros [= <-]. apply seqb_eq in E. auto.
+  - intros H. destruct (IH H). auto.
+Qed.
+
+Lemma schema_field_facts f : In f project_schema ->
+  name_ok (f_name f) = true /\ field_ty (f_name f) = Some (f_ty f).
+Proof.
+  intros Hin. pose proof schema_ok_true as S. unfold schema_ok in S.
+  apply andb_true_iff in S as [S _]. apply andb_true_iff in S as [S _].
+  apply andb_true_iff in S as [S _]. apply andb_true_iff in S as [S S3].
+  apply andb_true_iff in S as [S1 _].
+  split.
+  - apply (proj1 (forallb_forall _ _) S1 f Hin).
+  - pose proof (proj1 (forallb_forall _ _) S3 f Hin) as H. cbv beta in H.
+    destruct (field_ty (f_name f)) as [t|]; [|discriminate].
+    destruct t, (f_ty f); try discriminate; reflexivity.
+Qed.
+
+Lemma wt_option_typed kv : wt_option kv = true -> wt_typed kv.
+Proof.
+  unfold wt_option. destruct (find_field project_schema (fst kv)) as [f|] eqn:F; [|discriminate].
+  intros W. destruct (find_field_name _ _ _ F) as [E Hin]. destruct (schema_field_facts f Hin) as [N T].
+  rewrite E in *. exists (f_ty f). auto.
+Qed.
+
+Lemma wt_options_typed kvs : wt_options kvs = true ->
+  Forall wt_typed kvs /\ nodup_strs (map fst kvs) = true.
+Proof.
+  unfold wt_options. intros H. apply andb_true_iff in H as [H N]. split; [|exact N].
+  apply Forall_forall. intros kv Hin. rewrite forallb_forall in H. now apply wt_option_typed, H.
+Qed.
+
+(* ------------------------------------------------------------------ markdown = fpm.toml *)
+Lemma effective_load_eq i1 i2 :
+  load_settings (i_lines i1) (i_toml i1) = load_settings (i_lines i2) (i_toml i2) ->
+  i_cfg i1 = i_cfg i2 -> i_cli i1 = i_cli i2 -> project_dir i1 = project_dir i2 -> i_ford i1 = i_ford i2 ->
+  effective i1 = effective i2.
+Proof. intros H1 H2 H3 H4 H5. unfold effective. now rewrite H1, H2, H3, H4, H5. Qed.
+
+(* any set of distinct, well-typed options (no bare-scalar lists, no file types: those are covered
+   per option below) *)
+Theorem md_toml_agree_simple i kvs :
+  wt_options kvs = true -> forallb (fun kv => simple_value (snd kv)) kvs = true ->
+  effective_md i kvs = effective_toml i kvs.
+Proof.
+  intros W S. destruct (wt_options_typed kvs W) as [T N].
+  apply effective_load_eq; try reflexivity.
+  cbn [i_lines i_toml load_settings]. rewrite (run_markdown_enc kvs T N).
+  now rewrite (conv_all_simple kvs S).
+Qed.
+
+(* bare scalar for a list option: both forms are wrapped by __post_init__ *)
+Definition one_ok (f : field) : Prop :=
+  is_list_ty (f_ty f) = true ->
+  forall x, wrap_lists (set_relative (overlay defaults [(f_name f, PList [PStr x])]))
+            = wrap_lists (set_relative (overlay defaults [(f_name f, PStr x)]))
+            /\ first_bad_key [(f_name f, PList [PStr x])] = first_bad_key [(f_name f, PStr x)].
+
+Lemma one_ok_all : Forall one_ok project_schema.
+Proof.
+  unfold project_schema.
+  repeat (apply Forall_cons;
+          [unfold one_ok; cbn [f_name f_ty is_list_ty]; intros L x;
+           first [discriminate L | split; vm_compute; reflexivity]|]).
+  apply Forall_nil.
+Qed.
+
+Lemma construct_one f x : In f project_schema -> is_list_ty (f_ty f) = true ->
+  construct [(f_name f, PList [PStr x])] = construct [(f_name f, PStr x)].
+Proof.
+  intros Hin L. pose proof one_ok_all as A. rewrite Forall_forall in A.
+  destruct (A f Hin L x) as [E1 E2]. unfold construct, post_init. now rewrite E1, E2.
+Qed.
+
+(* file types: a dict of ExtraFileType (markdown) and a list of tables (TOML) *)
+Definition post_defaults : settings := match construct [] with Ok st => st | Err _ _ _ | Unmodelled _ => [] end.
+
+Definition ft_ok (f : field) : Prop :=
+  f_ty f = TDictFT ->
+  (forall X, first_bad_key [(f_name f, X)] = None) /\
+  (forall X, post_core (wrap_lists (set_relative (overlay defaults [(f_name f, X)])))
+             = Ok (sset (f_name f) X post_defaults)) /\
+  aget (f_name f) post_defaults <> None /\ seqb (f_name f) (s "extra_filetypes") = true.
+
+Lemma ft_ok_all : Forall ft_ok project_schema.
+Proof.
+  unfold project_schema.
+  repeat (apply Forall_cons;
+          [unfold ft_ok; cbn [f_name f_ty]; intros L;
+           first [discriminate L
+                 | split; [intros X; vm_compute; reflexivity|];
+                   split; [intros X; vm_compute; reflexivity|];
+                   split; [vm_compute; discriminate|vm_compute; reflexivity]]|]).
+  apply Forall_nil.
+Qed.
+
+Lemma sset_sset k v v' st : sset k v (sset k v' st) = sset k v st.
+Proof.
+  induction st as [|[k' w] st IH]; simpl; [reflexivity|].
+  destruct (seqb k k') eqn:E; simpl.
+  - now rewrite seqb_refl.
+  - now rewrite E, IH.
+Qed.
+
+Lemma file_type_of_ft_dict t : file_type_of_dict (ft_dict t) = Ok (ft_entry t).
+Proof. destruct t as [[e c] [l|]]; reflexivity. Qed.
+
+Lemma construct_ft f (l : list (str * str * option str)) : In f project_schema -> f_ty f = TDictFT ->
+  nodup_strs (map (fun t => fst (fst t)) l) = true ->
+  construct [(f_name f, PDict (map ft_entry l))] = construct [(f_name f, PList (map ft_dict l))].
+Proof.
+  intros Hin T N. pose proof ft_ok_all as A. rewrite Forall_forall in A.
+  destruct (A f Hin T) as (B & C & D & E). apply seqb_eq in E.
+  unfold construct. rewrite !B. unfold post_init. rewrite !C. cbn [bind].
+  unfold filetypes_step. rewrite <- E. rewrite !sget_sset_same by exact D.
+  rewrite (mapM_map_ok _ _ ft_entry) by (intros; apply file_type_of_ft_dict).
+  cbn [bind]. rewrite dict_of_pairs_nodup.
+  - now rewrite sset_sset.
+  - rewrite map_map. erewrite map_ext; [exact N|]. now intros [[e c] x].
+Qed.
+
+(* every option of the schema, every well-typed value *)
+Theorem md_toml_agree_single i k v :
+  wt_option (k, v) = true -> effective_md i [(k, v)] = effective_toml i [(k, v)].
+Proof.
+  intros W.
+  assert (Ws : wt_options [(k, v)] = true).
+  { unfold wt_options. cbn [forallb map nodup_strs fst sin]. now rewrite W. }
+  destruct (simple_value v) eqn:S.
+  - apply md_toml_agree_simple; [exact Ws|]. cbn [forallb snd]. now rewrite S.
+  - destruct (wt_options_typed _ Ws) as [T N].
+    apply effective_load_eq; try reflexivity.
+    cbn [i_lines i_toml load_settings]. rewrite (run_markdown_enc _ T N).
+    unfold run_toml, conv_all, enc_toml_all. cbn [map fst snd].
+    unfold wt_option in W. cbn [fst snd] in W.
+    destruct (find_field project_schema k) as [f|] eqn:F; [|discriminate].
+    destruct (find_field_name _ _ _ F) as [E Hin]. subst k.
+    destruct v; try discriminate S.
+    + (* VOne *) cbn [md_conv enc_toml].
+      rewrite (construct_one f item Hin); [reflexivity|].
+      destruct (f_ty f); try discriminate W; reflexivity.
+    + (* VFT *) cbn [md_conv enc_toml].
+      destruct (f_ty f) eqn:Tf; try discriminate W. cbn [wt_value] in W.
+      apply andb_true_iff in W as [_ Nd].
+      now rewrite (construct_ft f types Hin Tf Nd).
+Qed.
